@@ -95,6 +95,7 @@ class Unit:
         self.params_drop, self.params_add = [], []
         self.header_lines = []
         self.meta = {}
+        self.tail = None
 
 
 def parse_args(s):
@@ -161,12 +162,24 @@ class Generator:
             wrap = src[span[0]:span[0] + 1] != b'{'
         elif u.kind == 'stmts':
             pre = normtok(u.sel[0])
-            k = int(u.sel[1][1:]) if len(u.sel) > 1 else 0
+            rest = list(u.sel[1:])
+            k = 0
+            if rest and rest[0].startswith('#'):
+                k = int(rest.pop(0)[1:])
             c = [s for s in fn['stmts'] if normtok(src[s['span'][0]:s['span'][1]].decode()).startswith(pre)]
             if len(c) <= k:
                 raise GenError(f'lost-anchor: stmt "{u.sel[0]}" #{k} in {u.fnpath}')
             st = c[k]
             span = [st['span'][0], st['block_end']]
+            if rest and rest[0] == 'upto':
+                pre2 = normtok(rest[1])
+                c2 = [s for s in fn['stmts'] if s['block_end'] == st['block_end'] and s['depth'] == st['depth'] and s['span'][0] > st['span'][0]
+                      and normtok(src[s['span'][0]:s['span'][1]].decode()).startswith(pre2)]
+                if not c2:
+                    raise GenError(f'lost-anchor: upto-stmt "{rest[1]}" after "{u.sel[0]}" in {u.fnpath}')
+                span = [st['span'][0], c2[0]['span'][0]]
+                if any(inside(r, span) for r in fn['returns'] + fn['tries']):
+                    raise GenError(f'unsupported: bounded stmts fragment of {u.fnpath} contains return/?')
             # include a trailing `;` that syn leaves outside a `let` stmt span? (syn includes it) – nothing to do
             wrap = True
             frag_has_exit = any(inside(r, span) for r in fn['returns'] + fn['tries'])
@@ -257,6 +270,16 @@ class Generator:
                 if n == 0:
                     raise GenError(f'lost-anchor: RCALL site {rw[2]}.{meth} not found in {u.fnpath}')
                 applied.append(f'RCALL {rw[2]}.{meth} -> {func} x{n}')
+            elif kind == 'RC':
+                # closure contract: `|p| body` -> `|p| -> (cr: T) ensures E { body }` (body verbatim)
+                k, rty, ens = int(rw[1]), rw[2], rw[3]
+                cl = [c for c in fn['closures'] if inside(c['span'], span)]
+                if k >= len(cl):
+                    raise GenError(f'lost-anchor: closure #{k} in {u.fnpath}')
+                c = cl[k]
+                add_edit(c['body'][0], c['body'][0], f'-> (cr: {rty}) ensures {ens} {{ ', 'RC')
+                add_edit(c['body'][1], c['body'][1], ' }', 'RC')
+                applied.append(f'RC closure#{k} annotated: -> (cr: {rty}) ensures {ens}')
             elif kind == 'RT':
                 old, new = rw[1], rw[2]
                 body = src[span[0]:span[1]].decode()
@@ -312,6 +335,8 @@ class Generator:
         recon += src[pos:span[1]]
         assert recon == src[span[0]:span[1]]
         if wrap:
+            if u.tail:
+                self.emit('\n/*@*/ ' + u.tail, ('tmpl', u.tmpl, u.tline))
             self.emit('\n}\n', ('gen', 'wrap'))
         else:
             self.emit('\n', ('gen', 'nl'))
@@ -424,6 +449,8 @@ class Generator:
                             cur.params_drop.append(a)
                         else:
                             cur.params_add.append(a)
+                elif d == 'tail':
+                    cur.tail = st[4:].strip()[len('tail'):].strip()
                 elif d == 'rewrite':
                     cur.rewrites.append(args[1:])
                 elif d == 'loop':
@@ -453,6 +480,12 @@ class Generator:
     def emit_item(self, relfile, ipath, tmpl, tline, opts):
         idx = index(relfile)
         c = [it for it in idx['items'] if it['path'] == ipath]
+        ordn = [o for o in opts if o.startswith('#')]
+        if ordn:
+            k = int(ordn[0][1:])
+            c = c[k:k + 1]
+        elif len(c) > 1:
+            c = [it for it in c if it['kind'] != 'impl']
         if len(c) != 1:
             raise GenError(f'lost-anchor: item {ipath} in {relfile}: {len(c)} candidates')
         it = c[0]
